@@ -41,7 +41,7 @@ VERIFY_FAIL_MSGS = ('postcondition not satisfied', 'precondition not satisfied',
                     'loop invariant', 'decreases not satisfied', 'possible bit shift', 'assertion failure',
                     'unreachable code may be reachable', 'constructed value may fail to meet its declared type invariant',
                     'could not prove termination', 'failed to prove', 'cannot show invariant', 'invariant not', 'unable to prove', 'closure',
-                    'precondition not met', 'not satisfied', 'recommendation not met', 'might fail')
+                    'precondition not met', 'not satisfied', 'recommendation not met', 'might fail', 'fails to satisfy')
 
 
 class Undecided(Exception):
@@ -720,9 +720,11 @@ def verus_unit_quarantining(unit, ctx, workdir, text, tier):
             break
         except NotVerifiable as err:
             q = _quarantine(text, ctx, err.errors)
+            if os.environ.get('VC_DEBUG_QUARANTINE'):
+                sys.stderr.write('[quarantine round %d] errors=%r -> %r\n' % (_round, err.errors[:4], q and q[1]))
             if not q or not q[1] or any(k in removed or (k in quarantined and k.startswith('helper:')) for k in q[1]):
                 q = _escalate(text, ctx, err.errors, quarantined)
-                if not q or not q[1]:
+                if not q or (not q[1] and q[0] == text):       # (dropping a helper whose callers are all quarantined already is progress too)
                     raise
             text = q[0]
             for k in q[1]:
@@ -962,7 +964,7 @@ def find_missing_callees(unit, ctx, text, workdir, repo):
                 continue
             hit = None
             for it in sf.items:
-                if it.kw in ('fn', 'const', 'struct', 'enum') and it.name == name and ty is None:
+                if it.kw in ('fn', 'const', 'static', 'struct', 'enum') and it.name == name and ty is None:
                     hit = (rel, None, name, it.kw)
                 elif it.kw == 'impl' and it.body_open is not None:
                     hdr = re.sub(r'\s+', ' ', it.header).strip()[len('impl'):].strip()
